@@ -75,14 +75,14 @@ package errbase
 //@ unfold complete(e) = wrapperOf(e) != nil ? completeWrapper(wrapperOf(e)) : completeLeaf(leafOf(e))
 
 //@ func DecodeError
-//@   props C05 C01 C04 C11 C13
+//@   props C05 C01 C04 C11 C13 C02 C20
 //@   requires complete(enc)
 //@   defines decOf(enc)
 //@   ensures result != nil
 //@   requires[C03,C12] safeEnc(enc)
 
 //@ func decodeLeaf
-//@   props C05 C01 C04 C11 C13
+//@   props C05 C01 C04 C11 C13 C02 C20
 //@   purecalls
 //@   requires completeLeaf(enc)
 //@   ensures result != nil
@@ -94,7 +94,7 @@ package errbase
 //@   requires[C03,C12] safeEncLeaf(enc)
 
 //@ func decodeWrapper
-//@   props C05 C01 C04 C11
+//@   props C05 C01 C04 C11 C02 C20
 //@   purecalls
 //@   requires completeWrapper(enc)
 //@   ensures result != nil
@@ -107,7 +107,7 @@ package errbase
 //@ type opaqueWrapper invariant self.cause != nil
 
 //@ method (*opaqueLeaf).Error
-//@   props C01 C04 C10
+//@   props C01 C04 C10 C02
 //@   ensures result == self.msg
 
 //@ method (*opaqueWrapper).Cause
@@ -254,7 +254,7 @@ package errbase
 //@ spec func reasm(prefix string, mt MessageType, causeText string) string = mt == FullMessage ? prefix : (prefix == "" ? causeText : prefix + ": " + causeText)
 
 //@ func extractPrefix
-//@   props C01 C04
+//@   props C01 C04 C02
 //@   requires err != nil && cause != nil
 //@   ensures result1 == Prefix || result1 == FullMessage
 //@   ensures result1 == FullMessage ==> result0 == msg(err)
@@ -263,7 +263,7 @@ package errbase
 //@   ensures reasm(result0, result1, msg(cause)) == msg(err)
 
 //@ method (*opaqueWrapper).Error
-//@   props C01 C04 C10
+//@   props C01 C04 C10 C02
 //@   ensures result == reasm(self.prefix, self.messageType, msg(self.cause))
 
 //@ func encodeAsAny
@@ -271,7 +271,7 @@ package errbase
 //@   ensures result == (payload == nil ? nil : anyOf(payload))
 
 //@ func EncodeError
-//@   props C01 C02 C04 C11 C13
+//@   props C01 C02 C04 C11 C13 C20
 //@   requires err != nil
 //@   defines encOf(err)
 //@   ensures (cause1(err) != nil) == (wrapperOf(result) != nil)
@@ -280,7 +280,7 @@ package errbase
 //@   ensures[C03] safeEnc(result)
 
 //@ func encodeWrapper
-//@   props C01 C02 C04 C11
+//@   props C01 C02 C04 C11 C20
 //@   purecalls
 //@   requires err != nil && cause != nil && cause == cause1(err)
 //@   ensures wrapperOf(result) != nil && leafOf(result) == nil && completeWrapper(wrapperOf(result))
@@ -292,7 +292,7 @@ package errbase
 //@   ensures (!typeis(err, *opaqueWrapper) && !encoders.has(keyOf(err))) ==> reasm(wrapperOf(result).Message, wrapperOf(result).MessageType, msg(cause)) == msg(err) && wrapperOf(result).Details.ReportablePayload == safeDetailsOf(err) && wrapperOf(result).Details.FullDetails == nil
 
 //@ func encodeLeaf
-//@   props C01 C02 C04 C11 C13
+//@   props C01 C02 C04 C11 C13 C20
 //@   purecalls
 //@   requires err != nil && cause1(err) == nil
 //@   requires forall i int :: 0 <= i && i < len(causes) ==> causes[i] != nil
@@ -309,7 +309,7 @@ package errbase
 //@           invariant[C03] forall j int :: 0 <= j && j < $n ==> safeEnc(deref(cs[j]))
 
 //@ method (*opaqueLeafCauses).Error
-//@   props C01 C04 C13
+//@   props C01 C04 C13 C02
 //@   trusted "promoted method: synthetic wrapper around (*opaqueLeaf).Error on the embedded struct"
 //@   ensures result == self.msg
 
@@ -533,3 +533,21 @@ package errbase
 //@   loop 1: invariant[C12] allSD(err, details) == allSD(old(err), nil)
 //@   ensures[C03] forall i int :: 0 <= i && i < len(result) ==> safeS(result[i].OriginalTypeName) && safeS(result[i].ErrorTypeMark.FamilyName) && safeS(result[i].ErrorTypeMark.Extension) && safeSeq(result[i].SafeDetails)
 //@   loop 1: invariant[C03] forall i int :: 0 <= i && i < len(details) ==> safeS(details[i].OriginalTypeName) && safeS(details[i].ErrorTypeMark.FamilyName) && safeS(details[i].ErrorTypeMark.Extension) && safeSeq(details[i].SafeDetails)
+
+// ---- C04 / C09: how the opaque carriers present themselves to the format engine ----
+// a FULL_MESSAGE wrapper overrides its cause (next == nil) whatever its stored text is; a prefix
+// wrapper always continues with its cause
+//@ method (*opaqueWrapper).SafeFormatError
+//@   props C04 C09
+//@   requires p != nil
+//@   ensures result == (self.messageType == FullMessage ? nil : self.cause)
+//@   ensures len(self.prefix) > 0 ==> len($pargs) > len(old($pargs)) && $pargs[len(old($pargs))] == ifaceOf(self.prefix)
+//@   loop 1: invariant len($pargs) >= len(old($pargs))
+//@           invariant len(self.prefix) > 0 ==> len($pargs) > len(old($pargs)) && $pargs[len(old($pargs))] == ifaceOf(self.prefix)
+
+//@ method (*opaqueLeaf).SafeFormatError
+//@   props C04 C09
+//@   requires p != nil
+//@   ensures result == nil
+//@   ensures len($pargs) > len(old($pargs)) && $pargs[len(old($pargs))] == ifaceOf(self.msg)
+//@   loop 1: invariant len($pargs) > len(old($pargs)) && $pargs[len(old($pargs))] == ifaceOf(self.msg)
